@@ -294,3 +294,63 @@ L('wf_py_is_rs', [phi], z3.Implies(wf_py(phi), wf_rs(phi)), ind=phi, triggers=[w
 L('pm_len_zero', [pm_], z3.And(pm_len(pm_) >= 0, (pm_len(pm_) == 0) == PMp.is_('pnil', pm_)), ind=pm_, triggers=[pm_len(pm_)])
 L('ptl_len_zero', [ptl__], z3.And(ptl_len(ptl__) >= 0, (ptl_len(ptl__) == 0) == PTLs.is_('ptnil', ptl__)), ind=ptl__, triggers=[ptl_len(ptl__)])
 L('il_len_zero', [vs__], z3.And(il_len(vs__) >= 0, (il_len(vs__) == 0) == IDL.is_('inil', vs__)), ind=vs__, triggers=[il_len(vs__)])
+
+# lemmas about the python-side views (tracker lists, instantiation maps, operand segments): used by C03/C04/C14/..., never needed by the
+# checker-side proofs (C01/C05), where their broad multi-triggers only multiply instances
+PY_SIDE = ['ex_stack_lastn', 'ex_stack_dropn', 'ex_stack_len', 'tl_decompose', 'take_acc_cat', 'ptl_len_bottom', 'ex_stack_bottom', 'tl_allpat_snoc',
+           'tl_pats_snoc', 'pm_values_len', 'pm_values_allpat', 'pm_values_pats', 'pm_keys_rev_m', 'mkeys_rev_len', 'mvals_rev_len', 'pm_len_m',
+           'mzip_rev_is_mrz', 'mrz_lookup', 'minst_rs_mrz', 'mv_hit_keys', 'mem_mkeys_rev', 'take_all', 'take_all_eq', 'pm_values_tllen',
+           'minst_rs_nohit_m', 'ptl_wf_dropn', 'pm_len_zero', 'ptl_len_zero']
+
+
+def checker_side_lib():
+    return {k: v for k, v in LIB.items() if k not in PY_SIDE}
+
+
+STREAM = {}
+
+
+def LS(name, vars, stmt, **kw):
+    lm = Lemma(name, vars, stmt, **kw)
+    STREAM[name] = lm
+    return lm
+
+
+# --- byte streams: take / drop / nth (C14: the deserialiser's readers) -----------------------------------------------------------------
+_nm1 = lambda f, val, vars: [[(vars[0], vars[0] - 1)]]
+LS('il_drop_len', [nn__, vs__], z3.Implies(nn__ >= 0, IDL.is_('inil', il_drop(nn__, vs__)) == (il_len(vs__) <= nn__)), ind=vs__,
+  triggers=[il_drop(nn__, vs__)], ih_extra=_nm1, uses=['il_len_nonneg'], split_depth=1)
+LS('il_nth_drop', [nn__, vs__], z3.Implies(z3.And(nn__ >= 0, nn__ < il_len(vs__)),
+                                          z3.And(IDL.is_('icons', il_drop(nn__, vs__)), il_nth(vs__, nn__) == IDL.get('icons', 'ihd', il_drop(nn__, vs__)),
+                                                 il_drop(nn__ + 1, vs__) == IDL.get('icons', 'itl', il_drop(nn__, vs__)))), ind=vs__,
+  triggers=[il_nth(vs__, nn__), il_drop(nn__, vs__)], ih_extra=_nm1, uses=['il_len_nonneg'], split_depth=1)
+LS('il_take_step', [nn__, vs__], z3.Implies(z3.And(nn__ >= 0, nn__ < il_len(vs__)),
+                                           il_take(nn__ + 1, vs__) == il_snoc(il_take(nn__, vs__), IDL.get('icons', 'ihd', il_drop(nn__, vs__)))), ind=vs__,
+  triggers=[il_take(nn__, vs__)], ih_extra=_nm1, uses=['il_len_nonneg'], split_depth=1)
+LS('il_len_cat', [vs__, rest__], il_len(il_cat(vs__, rest__)) == il_len(vs__) + il_len(rest__), ind=vs__, triggers=[il_len(il_cat(vs__, rest__))], rewrite=True)
+LS('il_take_cat', [vs__, rest__], il_take(il_len(vs__), il_cat(vs__, rest__)) == vs__, ind=vs__, triggers=[il_take(il_len(vs__), il_cat(vs__, rest__))],
+  rewrite=True, uses=['il_len_nonneg'])
+LS('il_drop_cat', [vs__, rest__], il_drop(il_len(vs__), il_cat(vs__, rest__)) == rest__, ind=vs__, triggers=[il_drop(il_len(vs__), il_cat(vs__, rest__))],
+  rewrite=True, uses=['il_len_nonneg'])
+LS('il_take_drop', [nn__, vs__], il_cat(il_take(nn__, vs__), il_drop(nn__, vs__)) == vs__, ind=vs__, triggers=[il_cat(il_take(nn__, vs__), il_drop(nn__, vs__))],
+  ih_extra=_nm1, split_depth=1)     # not a rewrite rule: it would erase the instances il_take_drop_t adds (the second operand is rarely syntactically a drop)
+LS('il_take_len', [nn__, vs__], z3.Implies(z3.And(nn__ >= 0, nn__ <= il_len(vs__)), il_len(il_take(nn__, vs__)) == nn__), ind=vs__,
+  triggers=[il_len(il_take(nn__, vs__))], ih_extra=_nm1, uses=['il_len_nonneg'], split_depth=1)
+LS('il_allbytes_take', [nn__, vs__], z3.Implies(il_allbytes(vs__), z3.And(il_allbytes(il_take(nn__, vs__)), il_allbytes(il_drop(nn__, vs__)))), ind=vs__,
+  triggers=[il_take(nn__, vs__)], ih_extra=_nm1, split_depth=1)
+# python memory (list, indexed from the front) <-> machine memory
+LS('ex_mem_len', [ptl__], tl_len(ex_mem(ptl__)) == ptl_len(ptl__), ind=ptl__, triggers=[tl_len(ex_mem(ptl__))], rewrite=True, uses=['tl_len_snoc'])
+LS('tl_nth_snoc', [tl__, tt__, kk], z3.Implies(z3.And(kk >= 0, kk <= tl_len(tl__)),
+                                              tl_nth(tl_snoc(tl__, tt__), kk) == z3.If(kk == tl_len(tl__), tt__, tl_nth(tl__, kk))), ind=tl__,
+  triggers=[tl_nth(tl_snoc(tl__, tt__), kk)], ih_extra=lambda f, val, vars: [[(vars[2], vars[2] - 1)]], uses=['tl_len_nonneg'], split_depth=1)
+LS('ex_mem_nth', [ptl__, kk], z3.Implies(z3.And(kk >= 0, kk < ptl_len(ptl__)), ex_term(ptl_nth_front(ptl__, kk)) == tl_nth(ex_mem(ptl__), kk)), ind=ptl__,
+  triggers=[ptl_nth_front(ptl__, kk)], uses=['tl_nth_snoc', 'ex_mem_len', 'ptl_len_zero'], split_depth=1)
+LS('ptl_wf_nth', [ptl__, kk], z3.Implies(z3.And(ptl_wf(ptl__), kk >= 0, kk < ptl_len(ptl__)), ptl_wf(PTLs.mk('ptcons', ptl_nth_front(ptl__, kk), PTLs.mk('ptnil')))),
+  ind=ptl__, triggers=[ptl_nth_front(ptl__, kk)], uses=['ptl_len_zero'], split_depth=1)
+LS('il_take_drop_t', [nn__, vs__], il_cat(il_take(nn__, vs__), il_drop(nn__, vs__)) == vs__, nonind=True, triggers=[il_take(nn__, vs__)],
+  hints=[('il_take_drop', [nn__, vs__])])
+LS('il_allbytes_hd', [vs__], z3.Implies(z3.And(il_allbytes(vs__), IDL.is_('icons', vs__)),
+                                       z3.And(IDL.get('icons', 'ihd', vs__) >= 0, IDL.get('icons', 'ihd', vs__) <= 255, il_allbytes(IDL.get('icons', 'itl', vs__)))),
+  ind=vs__, triggers=[il_allbytes(vs__)])
+LS('il_drop_zero', [nn__, vs__], z3.Implies(nn__ <= 0, il_drop(nn__, vs__) == vs__), ind=vs__, triggers=[il_drop(nn__, vs__)])
+LS('il_take_zero', [nn__, vs__], z3.Implies(nn__ <= 0, il_take(nn__, vs__) == IDL.mk('inil')), ind=vs__, triggers=[il_take(nn__, vs__)])
